@@ -107,6 +107,19 @@ func main() {
 		}
 		stats := &solveStats{}
 		solveAll(res.Ctx, res.Obls, dir, to, 16, stats)
+		nat, natOK := 0, 0
+		for _, o := range res.Obls {
+			if o.Atom {
+				nat++
+				if o.Status == "unsat" {
+					natOK++
+				}
+			}
+		}
+		res.Obls = dropAtoms(res.Obls)
+		if nat > 0 {
+			fmt.Printf("folded predicate instances: %d tried, %d proved\n", nat, natOK)
+		}
 		bad := 0
 		for _, o := range res.Obls {
 			okay := o.Status == "unsat"
@@ -242,6 +255,10 @@ func runProperty(e *Engine, prop, tier, propsFile, evidence, replays, knownFile 
 			}(res, obls)
 		}
 		wg.Wait()
+		all = dropAtoms(all)
+		for _, res := range results {
+			res.Obls = dropAtoms(res.Obls)
+		}
 	}
 	_ = genSecs
 	// classify
@@ -514,6 +531,16 @@ func writeEvidence(e *Engine, path, prop, tier string, pc *PropConfig, results [
 	os.MkdirAll(filepath.Dir(path), 0o755)
 	b, _ := json.MarshalIndent(ev, "", " ")
 	os.WriteFile(path, b, 0o644)
+}
+
+func dropAtoms(obls []*Obligation) []*Obligation {
+	var out []*Obligation
+	for _, o := range obls {
+		if !o.Atom {
+			out = append(out, o)
+		}
+	}
+	return out
 }
 
 func round2(f float64) float64 { return float64(int(f*100+0.5)) / 100 }
